@@ -74,6 +74,11 @@ def cases():
         out.append(("offset:%s" % k, "  %s [+1]  UInt  zz\n" % OPERANDS[k][0], k == "int"))
         out.append(("size:%s" % k, "  8 [+%s]  UInt:8[]  zz\n" % OPERANDS[k][0], k == "int"))
         out.append(("array-length:%s" % k, "  8 [+4]  UInt:8[%s]  zz\n" % OPERANDS[k][2], k == "int"))
+        # every dimension of a multi-dimensional array is a length (the traversal must reach the inner ArrayTypes too)
+        out.append(("array-length-inner:%s" % k, "  8 [+8]  UInt:8[%s][2]  zz\n" % OPERANDS[k][2], k == "int"))
+        out.append(("array-length-outer:%s" % k, "  8 [+8]  UInt:8[2][%s]  zz\n" % OPERANDS[k][2], k == "int"))
+        out.append(("array-length-innermost-of-3:%s" % k, "  8 [+8]  UInt:8[%s][2][2]  zz\n" % OPERANDS[k][2], k == "int"))
+        out.append(("array-length-inner-with-auto-outer:%s" % k, "  8 [+8]  UInt:8[%s][]  zz\n" % OPERANDS[k][2], k == "int"))
         out.append(("condition:%s" % k, "  if %s:\n    8 [+1]  UInt  zz\n" % OPERANDS[k][0], k == "bool"))
         out.append(("requires:%s" % k, "@ATTR@  [requires: %s]\n" % OPERANDS[k][0], k == "bool"))
         out.append(("parameter:%s" % k, "  8 [+4]  Sized(%s)  zz\n" % OPERANDS[k][0], k == "int"))
